@@ -137,3 +137,14 @@ impl ValidatorAddrsWatch {
         Ok(())
     }
 }
+
+#[cfg(feature = "verif_hooks")]
+impl ValidatorAddrsWatch {
+    /// Verification hook: acquires the sender lock of the watch, exactly as `update` and
+    /// `announce` do, and hands the guard to the caller (they queue behind it until it is dropped).
+    pub(crate) async fn verif_lock(
+        &self,
+    ) -> sync::MutexGuard<'_, sync::watch::Sender<ValidatorAddrs>> {
+        self.0.lock().await
+    }
+}
